@@ -6,6 +6,7 @@ import (
 	"os"
 	"os/exec"
 	"reflect"
+	"runtime"
 	"strings"
 	"time"
 
@@ -206,9 +207,11 @@ func init() {
 						s.Typ = strings.TrimPrefix(fn, "To") // a value of another struct that carries the target's type name
 					}
 					var out, viol string
+					c.Attempt("C08/crash", s)
 					if p, msg := guard(func() { out, viol = c08Site(s) }); p {
 						out, viol = "panic", "panic: "+msg
 					}
+					runtime.GC() // a view over foreign memory is found by the collector: here, not many cases later
 					in := map[string]interface{}{"op": "cast", "fn": fn, "src": src, "ptr": ptr, "typ": s.Typ}
 					c.Emit(in, out, "To"+src != fn)
 					c.Tag("cast/" + out)
@@ -226,6 +229,7 @@ func init() {
 							s2 := s
 							s2.Embed = embed
 							var out2, viol2 string
+							c.Attempt("C08/crash", s2)
 							if p, msg := guard(func() { out2, viol2 = c08Site(s2) }); p {
 								out2, viol2 = "panic", "panic: "+msg
 							}
@@ -262,6 +266,7 @@ func init() {
 		// reflection fallback (ConvertibleTo): the view of a pointer must be the same memory
 		for _, f := range c08Foreign {
 			viol := ""
+			c.Attempt("C08/crash", map[string]interface{}{"foreign": f.name})
 			if p, msg := guard(func() { viol = f.run() }); p {
 				viol = "panic: " + msg
 			}
@@ -285,7 +290,9 @@ func init() {
 						it = pv.Elem().Interface().(ap.Item)
 					}
 					var got reflect.Type
+					c.Attempt("C08/crash", map[string]interface{}{"on": h.name, "src": src, "ptr": ptr})
 					p, msg := guard(func() { got = h.run(it) })
+					runtime.GC() // a view over foreign memory is found by the collector: here, not many cases later
 					c.Count(map[string]interface{}{"on": h.name, "src": src, "ptr": ptr}, true)
 					c.Tag("on-callback")
 					in := map[string]interface{}{"on": h.name, "src": src, "ptr": ptr}
